@@ -13,16 +13,27 @@ open SaVerif.Expr.Gen SaVerif.Pratt
 /-- binary operators of the fragment (all rendered as `left <text> right`) -/
 def coreBin (op : Op) : Bool :=
   op = .add || op = .sub || op = .mul || op = .mod || op = .eq || op = .ne || op = .lt ||
-  op = .le || op = .gt || op = .ge || op = .is_ || op = .is_not
+  op = .le || op = .gt || op = .ge || op = .is_ || op = .is_not || op = .concat_op
+
+/-- the two divisions: rendered by `visit_truediv_binary` / `visit_floordiv_binary` -/
+def coreDiv (op : Op) : Bool := op = .truediv || op = .floordiv
+
+/-- binary operators of the fragment -/
+def coreBinD (op : Op) : Bool := coreBin op || coreDiv op
 
 /-- operators of flattened lists in the fragment -/
-def coreList (op : Op) : Bool := op = .add || op = .mul || op = .and_ || op = .or_
+def coreList (op : Op) : Bool :=
+  op = .add || op = .mul || op = .and_ || op = .or_ || op = .concat_op
+
+/-- the dialect spells string concatenation as the function `concat(…)` -/
+def catFn (d : Dialect) (op : Op) : Bool := op = .concat_op && (d = .mysql || d = .mariadb)
 
 def coreUn (op : Op) : Bool := op = .neg || op = .inv
 
 /-- every infix operator of the fragment -/
 def coreInfix : List Op :=
-  [.add, .sub, .mul, .mod, .eq, .ne, .lt, .le, .gt, .ge, .is_, .is_not, .and_, .or_]
+  [.add, .sub, .mul, .mod, .eq, .ne, .lt, .le, .gt, .ge, .is_, .is_not, .and_, .or_,
+   .truediv, .floordiv, .concat_op]
 
 def corePrefix : List Op := [.neg, .inv]
 
@@ -37,7 +48,7 @@ def Core : SaExpr → Bool
   | .null => true
   | .true_ => true
   | .false_ => true
-  | .binary op l r _ esc _ => coreBin op && esc.isNone && Core l && Core r
+  | .binary op l r _ esc _ => coreBinD op && esc.isNone && Core l && Core r
   | .clist op cs group _ _ => coreList op && group && decide (2 ≤ cs.length) && CoreList cs
   | .unary op e _ => coreUn op && Core e
   | .grouping e => Core e
@@ -114,7 +125,20 @@ def sepCompat (g : Grammar) : Bool :=
     (coreInfix.all fun o => decide (sr ≤ infBase g o)) &&
     (corePrefix.all fun u => decide (sr ≤ preBase g u)) &&
     (coreInfix.all fun o => decide (opSmallest - 1 < precOf o)) &&
-    (corePrefix.all fun u => decide (opSmallest - 1 < precOf u))
+    (corePrefix.all fun u => decide (opSmallest - 1 < precOf u)) &&
+    -- SQLite spells true division `l / (r + 0.0)`: whatever is left bare under `/` binds
+    -- tighter than the `+` it is put under
+    decide (precOf .add ≤ precOf .truediv)
+
+/-- in `g`, every infix operator of the fragment with a higher precedence number than `concat_op`
+    binds tighter than `||` on both sides: true for PostgreSQL, false for SQLite (where `||`
+    binds tighter than arithmetic — finding F1) -/
+def concatFull (g : Grammar) : Bool :=
+  match g.infixBp .concat with
+  | none => false
+  | some (lbp, rbp) =>
+    coreInfix.all fun o => !decide (precOf .concat_op < precOf o) ||
+      (decide (lbp + 1 ≤ infBase g o) && decide (rbp ≤ infBase g o))
 
 /-- compatibility of the regenerated precedence numbers with grammar `g`, on the fragment -/
 def coreCompat (g : Grammar) : Bool :=
@@ -127,7 +151,8 @@ def coreCompat (g : Grammar) : Bool :=
   (coreInfix.all fun p => match g.infixBp (symOf p) with
     | none => false
     | some (lbp, rbp) =>
-      (coreInfix.all fun o => !decide (precOf p < precOf o) ||
+      -- (for the parent `concat_op` this is `concatFull g`: finding F1 on SQLite)
+      (coreInfix.all fun o => p == .concat_op || !decide (precOf p < precOf o) ||
         (decide (lbp + 1 ≤ infBase g o) && decide (rbp ≤ infBase g o))) &&
       (corePrefix.all fun u => !decide (precOf p < precOf u) ||
         (decide (lbp + 1 ≤ preBase g u) && decide (rbp ≤ preBase g u)))) &&
@@ -150,15 +175,48 @@ open SaVerif.Expr.Gen SaVerif.Pratt
 
 /-! ### unfolding equations of `render` on the fragment -/
 
+theorem catFn_false_iff {d : Dialect} {op : Op} (h : catFn d op = false) :
+    ¬ (op = .concat_op ∧ (d = .mysql ∨ d = .mariadb)) := by
+  intro hh
+  simp [catFn, hh.1] at h
+  rcases hh.2 with h' | h' <;> simp [h'] at h
+
+theorem catFn_true {d : Dialect} {op : Op} (h : catFn d op = true) :
+    op = .concat_op ∧ (d = .mysql ∨ d = .mariadb) := by
+  simpa [catFn] using h
+
 theorem render_coreBin (d : Dialect) (lb : Bool) (op : Op) (l r : SaExpr) (n : Option Op)
-    (esc : Option String) (ty : Ty) (h : coreBin op = true) :
+    (esc : Option String) (ty : Ty) (h : coreBin op = true) (hcf : catFn d op = false) :
     ∃ txt, render d lb (.binary op l r n esc ty) = G.inf (symOf op) txt (render d lb l) (render d lb r) := by
-  cases op <;> simp [coreBin] at h <;> exact ⟨_, rfl⟩
+  by_cases hc : op = .concat_op
+  · subst hc
+    have hn : ¬ (d = .mysql ∨ d = .mariadb) := fun hh => catFn_false_iff hcf ⟨rfl, hh⟩
+    refine ⟨opText .concat_op, ?_⟩
+    show (if d = .mysql ∨ d = .mariadb then _ else _) = _
+    simp only [hn, if_false]
+    rfl
+  · cases op <;> simp [coreBin] at h <;> first | exact ⟨_, rfl⟩ | exact absurd rfl hc
+
+theorem render_catFn_bin (d : Dialect) (lb : Bool) (op : Op) (l r : SaExpr) (n : Option Op)
+    (esc : Option String) (ty : Ty) (hcf : catFn d op = true) :
+    render d lb (.binary op l r n esc ty) =
+      G.br (.fn "concat") (G.inf .comma ", " (render d lb l) (render d lb r)) := by
+  obtain ⟨ho, hd⟩ := catFn_true hcf
+  subst ho
+  show (if d = .mysql ∨ d = .mariadb then _ else _) = _
+  simp only [hd, if_true]
 
 theorem render_clist (d : Dialect) (lb : Bool) (op : Op) (cs : List SaExpr) (gr bl : Bool) (ty : Ty)
-    (h : op ≠ .concat_op) :
+    (h : catFn d op = false) :
     render d lb (.clist op cs gr bl ty) = chain (symOf op) (opText op) (renderList d lb cs) := by
-  have : ¬ (op = .concat_op ∧ (d = .mysql ∨ d = .mariadb)) := by intro hh; exact h hh.1
+  have := catFn_false_iff h
+  show (if op = .concat_op ∧ (d = .mysql ∨ d = .mariadb) then _ else _) = _
+  simp [this]
+
+theorem render_catFn_list (d : Dialect) (lb : Bool) (op : Op) (cs : List SaExpr) (gr bl : Bool) (ty : Ty)
+    (h : catFn d op = true) :
+    render d lb (.clist op cs gr bl ty) = G.br (.fn "concat") (chain .comma ", " (renderList d lb cs)) := by
+  have := catFn_true h
   show (if op = .concat_op ∧ (d = .mysql ∨ d = .mariadb) then _ else _) = _
   simp [this]
 
@@ -173,14 +231,52 @@ theorem renderList_nil (d : Dialect) (lb : Bool) : renderList d lb [] = [] := rf
 theorem coreBin_mem {op : Op} (h : coreBin op = true) : op ∈ coreInfix := by
   cases op <;> simp [coreBin] at h <;> simp [coreInfix]
 
+theorem coreDiv_mem {op : Op} (h : coreDiv op = true) : op ∈ coreInfix := by
+  cases op <;> simp [coreDiv] at h <;> simp [coreInfix]
+
+theorem coreBinD_cases {op : Op} (h : coreBinD op = true) : coreBin op = true ∨ coreDiv op = true := by
+  simpa [coreBinD] using h
+
+theorem coreBinD_mem {op : Op} (h : coreBinD op = true) : op ∈ coreInfix := by
+  rcases coreBinD_cases h with h | h
+  · exact coreBin_mem h
+  · exact coreDiv_mem h
+
+def zeroAtom : G := G.atom ⟨"0.0", .num "0.0"⟩
+
+/-- the four spellings of a division over the rendered operands `L`, `R` -/
+inductive DivShape (L R : G) : G → Prop
+  | plain : DivShape L R (G.inf .slash " / " L R)
+  | real0 : DivShape L R (G.inf .slash " / " L (G.br .paren (G.inf .plus " + " R zeroAtom)))
+  | cast (n : String) : DivShape L R (G.inf .slash " / " L (G.br .cast (G.inf .as_ " AS " R (opaqueG n))))
+  | floor : DivShape L R (G.br (.fn "FLOOR") (G.inf .slash " / " L R))
+
+theorem truedivG_shape (d : Dialect) (L R : G) : DivShape L R (truedivG d L R) := by
+  unfold truedivG
+  split
+  · exact .real0
+  · split
+    · exact .cast _
+    · exact .plain
+
+theorem floordivG_shape (d : Dialect) (lt rt : Ty) (L R : G) : DivShape L R (floordivG d lt rt L R) := by
+  unfold floordivG
+  split
+  · exact .plain
+  · exact .floor
+
+theorem render_coreDiv (d : Dialect) (lb : Bool) (op : Op) (l r : SaExpr) (n : Option Op)
+    (esc : Option String) (ty : Ty) (h : coreDiv op = true) :
+    DivShape (render d lb l) (render d lb r) (render d lb (.binary op l r n esc ty)) := by
+  cases op <;> simp [coreDiv] at h
+  · exact truedivG_shape d _ _
+  · exact floordivG_shape d _ _ _ _
+
 theorem coreList_mem {op : Op} (h : coreList op = true) : op ∈ coreInfix := by
   cases op <;> simp [coreList] at h <;> simp [coreInfix]
 
 theorem coreUn_mem {op : Op} (h : coreUn op = true) : op ∈ corePrefix := by
   cases op <;> simp [coreUn] at h <;> simp [corePrefix]
-
-theorem coreList_ne_concat {op : Op} (h : coreList op = true) : op ≠ .concat_op := by
-  cases op <;> simp [coreList] at h <;> simp
 
 /-! ### unpacking `coreCompat` -/
 
@@ -188,7 +284,8 @@ structure Compat (g : Grammar) : Prop where
   inf_known : ∀ o ∈ coreInfix, ∃ lbp rbp, g.infixBp (symOf o) = some (lbp, rbp) ∧
     g.ternBp (symOf o) = none ∧ (precedence o).isSome = true
   pre_known : ∀ u ∈ corePrefix, ∃ bp, g.prefixBp (symOf u) = some bp ∧ (precedence u).isSome = true
-  inf_inf : ∀ p ∈ coreInfix, ∀ o ∈ coreInfix, ∀ lbp rbp, g.infixBp (symOf p) = some (lbp, rbp) →
+  inf_inf : ∀ p ∈ coreInfix, p ≠ .concat_op → ∀ o ∈ coreInfix, ∀ lbp rbp,
+    g.infixBp (symOf p) = some (lbp, rbp) →
     precOf p < precOf o → lbp + 1 ≤ infBase g o ∧ rbp ≤ infBase g o
   inf_pre : ∀ p ∈ coreInfix, ∀ u ∈ corePrefix, ∀ lbp rbp, g.infixBp (symOf p) = some (lbp, rbp) →
     precOf p < precOf u → lbp + 1 ≤ preBase g u ∧ rbp ≤ preBase g u
@@ -202,20 +299,22 @@ structure Compat (g : Grammar) : Prop where
     (∀ s, s.isSep = true → g.infixBp s = some (sl, sr) ∧ g.ternBp s = none) ∧
     (∀ o ∈ coreInfix, sr ≤ infBase g o) ∧ (∀ u ∈ corePrefix, sr ≤ preBase g u)
   bottom : (∀ o ∈ coreInfix, opSmallest - 1 < precOf o) ∧ (∀ u ∈ corePrefix, opSmallest - 1 < precOf u)
+  add_div : precOf .add ≤ precOf .truediv
 
 theorem sep_of_bool (g : Grammar) (h : sepCompat g = true) :
     (∃ sl sr, sl < sr ∧
       (∀ s, s.isSep = true → g.infixBp s = some (sl, sr) ∧ g.ternBp s = none) ∧
       (∀ o ∈ coreInfix, sr ≤ infBase g o) ∧ (∀ u ∈ corePrefix, sr ≤ preBase g u)) ∧
-    ((∀ o ∈ coreInfix, opSmallest - 1 < precOf o) ∧ (∀ u ∈ corePrefix, opSmallest - 1 < precOf u)) := by
+    ((∀ o ∈ coreInfix, opSmallest - 1 < precOf o) ∧ (∀ u ∈ corePrefix, opSmallest - 1 < precOf u)) ∧
+    precOf .add ≤ precOf .truediv := by
   unfold sepCompat at h
   cases hb : g.infixBp .comma with
   | none => simp [hb] at h
   | some p =>
     obtain ⟨sl, sr⟩ := p
     simp only [hb, Bool.and_eq_true, List.all_eq_true, decide_eq_true_eq, beq_iff_eq] at h
-    obtain ⟨⟨⟨⟨⟨h1, h2⟩, h3⟩, h4⟩, h5⟩, h6⟩ := h
-    refine ⟨⟨sl, sr, h1, ?_, h3, h4⟩, h5, h6⟩
+    obtain ⟨⟨⟨⟨⟨⟨h1, h2⟩, h3⟩, h4⟩, h5⟩, h6⟩, h7⟩ := h
+    refine ⟨⟨sl, sr, h1, ?_, h3, h4⟩, ⟨h5, h6⟩, h7⟩
     intro s hs
     have hm : s ∈ sepSyms := by cases s <;> simp [Sym.isSep] at hs <;> simp [sepSyms]
     have := h2 s hm
@@ -224,14 +323,23 @@ theorem sep_of_bool (g : Grammar) (h : sepCompat g = true) :
     | none => rfl
     | some q => have := this.2; simp [hq] at this
 
+theorem concatFull_spec (g : Grammar) (h : concatFull g = true) :
+    ∀ o ∈ coreInfix, ∀ lbp rbp, g.infixBp .concat = some (lbp, rbp) →
+      precOf .concat_op < precOf o → lbp + 1 ≤ infBase g o ∧ rbp ≤ infBase g o := by
+  intro o ho lbp rbp hb hlt
+  simp only [concatFull, hb, List.all_eq_true] at h
+  have := h o ho
+  simp [hlt] at this
+  exact this
+
 theorem compat_of_bool (g : Grammar) (h : coreCompat g = true) : Compat g := by
   have hsep : sepCompat g = true := by
     simp only [coreCompat, Bool.and_eq_true] at h
     exact h.1.1.1.1.1.1.1
-  obtain ⟨hS, hB⟩ := sep_of_bool g hsep
+  obtain ⟨hS, hB, hAD⟩ := sep_of_bool g hsep
   simp only [coreCompat, Bool.and_eq_true, List.all_eq_true] at h
   obtain ⟨⟨⟨⟨⟨⟨⟨_, h1⟩, h2⟩, h3⟩, h4⟩, h5⟩, h6⟩, h7⟩ := h
-  refine ⟨?_, ?_, ?_, ?_, ?_, ?_, ?_, ?_, ?_, hS, hB⟩
+  refine ⟨?_, ?_, ?_, ?_, ?_, ?_, ?_, ?_, ?_, hS, hB, hAD⟩
   · intro o ho
     have := h1 o ho
     try simp only [Bool.and_eq_true] at this
@@ -249,11 +357,11 @@ theorem compat_of_bool (g : Grammar) (h : coreCompat g = true) : Compat g := by
     cases hb : g.prefixBp (symOf u) with
     | none => simp [hb] at this
     | some bp => exact ⟨bp, rfl, this.2⟩
-  · intro p hp o ho lbp rbp hb hlt
+  · intro p hp hpc o ho lbp rbp hb hlt
     have := h3 p hp
     simp only [hb, Bool.and_eq_true, List.all_eq_true] at this
     have := this.1 o ho
-    simp [hlt] at this
+    simp [hlt, hpc] at this
     exact this
   · intro p hp u hu lbp rbp hb hlt
     have := h3 p hp
@@ -391,7 +499,7 @@ theorem above_of_WG (hprec : ∀ o, o ∈ coreInfix ∨ o ∈ corePrefix → (pr
     simp only [WG, Bool.and_eq_true, Bool.not_eq_true'] at hw
     obtain ⟨⟨⟨hgl, hgr⟩, hwl⟩, hwr⟩ := hw
     simp only [rootAbove, decide_eq_true_eq] at hr
-    have hs := hprec op (Or.inl (coreBin_mem hop))
+    have hs := hprec op (Or.inl (coreBinD_mem hop))
     simp only [above, Bool.and_eq_true, decide_eq_true_eq]
     refine ⟨⟨hr, ?_⟩, ?_⟩
     · apply above_of_WG hprec l p hcl hwl
@@ -545,6 +653,18 @@ theorem infBase_le {g : Grammar} {o : Op} {lbp rbp k : Nat}
   simp only [infBase, hb] at h
   omega
 
+theorem symOf_div {op : Op} (h : coreDiv op = true) : symOf op = .slash := by
+  cases op <;> simp [coreDiv] at h <;> rfl
+
+theorem tight_div (g : Grammar) (k lbp rbp : Nat) (hb : g.infixBp .slash = some (lbp, rbp))
+    (hl : k ≤ lbp) (hr : k ≤ rbp) {L R x : G} (sh : DivShape L R x)
+    (tL : tight g k L = true) (tR : tight g k R = true) : tight g k x = true := by
+  cases sh <;> simp [tight, hb, hl, hr, tL, tR]
+
+theorem allExp_div (P : Sym → Bool) (hP : P .slash = true) {L R x : G} (sh : DivShape L R x)
+    (aL : allExp P L = true) (aR : allExp P R = true) : allExp P x = true := by
+  cases sh <;> simp [allExp, hP, aL, aR]
+
 mutual
 /-- if every operator outside parentheses has precedence above `p`, and the grammar binds all
     such operators at least `k`, the rendering is `k`-tight -/
@@ -563,11 +683,17 @@ theorem tight_render (g : Grammar) (C : Compat g) (d : Dialect) (k : Nat) (p : I
     obtain ⟨⟨⟨hop, _⟩, hcl⟩, hcr⟩ := hc
     simp only [above, Bool.and_eq_true, decide_eq_true_eq] at ha
     obtain ⟨⟨hp, hal⟩, har⟩ := ha
-    obtain ⟨txt, heq⟩ := render_coreBin d true op l r n esc ty hop
-    obtain ⟨lbp, rbp, hb, _, _⟩ := C.inf_known op (coreBin_mem hop)
-    obtain ⟨h1, h2⟩ := infBase_le hb (H op (coreBin_mem hop) hp)
-    rw [heq]
-    simp [tight, hb, h1, h2, tight_render g C d k p H H' l hcl hal, tight_render g C d k p H H' r hcr har]
+    obtain ⟨lbp, rbp, hb, _, _⟩ := C.inf_known op (coreBinD_mem hop)
+    obtain ⟨h1, h2⟩ := infBase_le hb (H op (coreBinD_mem hop) hp)
+    rcases coreBinD_cases hop with hop' | hdiv
+    · by_cases hcf : catFn d op = true
+      · rw [render_catFn_bin d true op l r n esc ty hcf]; rfl
+      · obtain ⟨txt, heq⟩ := render_coreBin d true op l r n esc ty hop' (by simpa using hcf)
+        rw [heq]
+        simp [tight, hb, h1, h2, tight_render g C d k p H H' l hcl hal, tight_render g C d k p H H' r hcr har]
+    · rw [symOf_div hdiv] at hb
+      exact tight_div g k lbp rbp hb h1 h2 (render_coreDiv d true op l r n esc ty hdiv)
+        (tight_render g C d k p H H' l hcl hal) (tight_render g C d k p H H' r hcr har)
   | .unary op e ty, hc, ha => by
     simp only [Core, Bool.and_eq_true] at hc
     simp only [above, Bool.and_eq_true, decide_eq_true_eq] at ha
@@ -582,15 +708,17 @@ theorem tight_render (g : Grammar) (C : Compat g) (d : Dialect) (k : Nat) (p : I
     simp only [above, Bool.and_eq_true, decide_eq_true_eq] at ha
     obtain ⟨lbp, rbp, hb, _, _⟩ := C.inf_known op (coreList_mem hop)
     obtain ⟨h1, h2⟩ := infBase_le hb (H op (coreList_mem hop) ha.1)
-    rw [render_clist d true op cs gr bl ty (coreList_ne_concat hop)]
-    have hall := tight_renderList g C d k p H H' cs hcs ha.2
-    cases hcs' : renderList d true cs with
-    | nil => rfl
-    | cons x xs =>
-      simp only [chain]
-      rw [hcs'] at hall
-      exact tight_chainFrom g k _ _ lbp rbp hb h1 h2 xs x (hall x (by simp))
-        (fun y hy => hall y (by simp [hy]))
+    by_cases hcf : catFn d op = true
+    · rw [render_catFn_list d true op cs gr bl ty hcf]; rfl
+    · rw [render_clist d true op cs gr bl ty (by simpa using hcf)]
+      have hall := tight_renderList g C d k p H H' cs hcs ha.2
+      cases hcs' : renderList d true cs with
+      | nil => rfl
+      | cons x xs =>
+        simp only [chain]
+        rw [hcs'] at hall
+        exact tight_chainFrom g k _ _ lbp rbp hb h1 h2 xs x (hall x (by simp))
+          (fun y hy => hall y (by simp [hy]))
   | .asbool _ _ _, hc, _ => by simp [Core] at hc
   | .case_ v ws e ty, hc, _ => tight_of_no_rootOp g d k _ hc rfl
   | .cast e ty, hc, _ => tight_of_no_rootOp g d k _ hc rfl
@@ -634,9 +762,16 @@ theorem allExp_render (d : Dialect) (P : Sym → Bool)
   | .binary op l r n esc ty, hc => by
     simp only [Core, Bool.and_eq_true] at hc
     obtain ⟨⟨⟨hop, _⟩, hcl⟩, hcr⟩ := hc
-    obtain ⟨txt, heq⟩ := render_coreBin d true op l r n esc ty hop
-    rw [heq]
-    simp [allExp, hP op (coreBin_mem hop), allExp_render d P hP hP' l hcl, allExp_render d P hP hP' r hcr]
+    rcases coreBinD_cases hop with hop' | hdiv
+    · by_cases hcf : catFn d op = true
+      · rw [render_catFn_bin d true op l r n esc ty hcf]; rfl
+      · obtain ⟨txt, heq⟩ := render_coreBin d true op l r n esc ty hop' (by simpa using hcf)
+        rw [heq]
+        simp [allExp, hP op (coreBin_mem hop'), allExp_render d P hP hP' l hcl, allExp_render d P hP hP' r hcr]
+    · have hs := hP op (coreDiv_mem hdiv)
+      rw [symOf_div hdiv] at hs
+      exact allExp_div P hs (render_coreDiv d true op l r n esc ty hdiv)
+        (allExp_render d P hP hP' l hcl) (allExp_render d P hP hP' r hcr)
   | .unary op e ty, hc => by
     simp only [Core, Bool.and_eq_true] at hc
     rw [render_unary]
@@ -644,15 +779,17 @@ theorem allExp_render (d : Dialect) (P : Sym → Bool)
   | .clist op cs gr bl ty, hc => by
     simp only [Core, Bool.and_eq_true, decide_eq_true_eq] at hc
     obtain ⟨⟨⟨hop, _⟩, hlen⟩, hcs⟩ := hc
-    rw [render_clist d true op cs gr bl ty (coreList_ne_concat hop)]
-    have hall := allExp_renderList d P hP hP' cs hcs
-    cases hcs' : renderList d true cs with
-    | nil => rfl
-    | cons x xs =>
-      simp only [chain]
-      rw [hcs'] at hall
-      exact allExp_chainFrom P _ _ (hP op (coreList_mem hop)) xs x (hall x (by simp))
-        (fun y hy => hall y (by simp [hy]))
+    by_cases hcf : catFn d op = true
+    · rw [render_catFn_list d true op cs gr bl ty hcf]; rfl
+    · rw [render_clist d true op cs gr bl ty (by simpa using hcf)]
+      have hall := allExp_renderList d P hP hP' cs hcs
+      cases hcs' : renderList d true cs with
+      | nil => rfl
+      | cons x xs =>
+        simp only [chain]
+        rw [hcs'] at hall
+        exact allExp_chainFrom P _ _ (hP op (coreList_mem hop)) xs x (hall x (by simp))
+          (fun y hy => hall y (by simp [hy]))
   | .asbool _ _ _, hc => by simp [Core] at hc
   | .case_ v ws e ty, _ => by rw [render_case]; exact allExp_caseG P _ _ _
   | .cast e ty, hc => by
@@ -706,18 +843,23 @@ theorem rootIs_chainFrom (s : Sym) (t : String) :
     exact rootIs_chainFrom s t gs _ (Or.inr (by simp [rootIs]))
 
 theorem rootIs_render_of_rootOp (d : Dialect) (op : Op) (c : SaExpr) (hc : Core c = true)
-    (hr : rootOp c = some op) (hi : op ∈ coreInfix) : rootIs (symOf op) (render d true c) = true := by
+    (hr : rootOp c = some op) (hi : op ∈ coreInfix) (hna : G.assocSym (symOf op) = true)
+    (hcf : catFn d op = false) :
+    rootIs (symOf op) (render d true c) = true := by
   cases c with
   | binary op' l r n esc ty =>
     simp only [rootOp, Option.some.injEq] at hr; subst hr
     simp only [Core, Bool.and_eq_true] at hc
-    obtain ⟨txt, heq⟩ := render_coreBin d true op' l r n esc ty hc.1.1.1
-    rw [heq]; simp [rootIs]
+    rcases coreBinD_cases hc.1.1.1 with hop' | hdiv
+    · obtain ⟨txt, heq⟩ := render_coreBin d true op' l r n esc ty hop' hcf
+      rw [heq]; simp [rootIs]
+    · rw [symOf_div hdiv] at hna
+      cases hna
   | clist op' cs gr bl ty =>
     simp only [rootOp, Option.some.injEq] at hr; subst hr
     simp only [Core, Bool.and_eq_true, decide_eq_true_eq] at hc
     obtain ⟨⟨⟨hop, _⟩, hlen⟩, _⟩ := hc
-    rw [render_clist d true op' cs gr bl ty (coreList_ne_concat hop)]
+    rw [render_clist d true op' cs gr bl ty hcf]
     cases cs with
     | nil => simp at hlen
     | cons c1 cs =>
@@ -756,11 +898,55 @@ theorem precs (g : Grammar) (C : Compat g) :
   · obtain ⟨_, _, _, _, hp⟩ := C.inf_known o h; exact hp
   · obtain ⟨_, _, hp⟩ := C.pre_known o h; exact hp
 
+/-- an operand of a concatenation that exposes no operator other than `||` itself -/
+def catOpnd (c : SaExpr) : Bool :=
+  match rootOp c with
+  | none => true
+  | some o => o = .concat_op
+
+mutual
+/-- **the F1 cells are excluded**: on a dialect that spells concatenation `a || b`, every operand
+    of a concatenation is an atom, a bracket (parenthesised, function call, CASE, CAST) or a
+    concatenation — no arithmetic operator is exposed under `||` -/
+def ConcatSafe (d : Dialect) : SaExpr → Bool
+  | .binary op l r _ _ _ =>
+    (op != .concat_op || catFn d op || (catOpnd l && catOpnd r)) && ConcatSafe d l && ConcatSafe d r
+  | .clist op cs _ _ _ =>
+    (op != .concat_op || catFn d op || cs.all catOpnd) && ConcatSafeList d cs
+  | .unary _ e _ => ConcatSafe d e
+  | .grouping e => ConcatSafe d e
+  | .func _ args _ => ConcatSafeList d args
+  | .cast e _ => ConcatSafe d e
+  | .case_ v ws e _ => ConcatSafe d v && ConcatSafeList d ws && ConcatSafe d e
+  | _ => true
+def ConcatSafeList (d : Dialect) : List SaExpr → Bool
+  | [] => true
+  | e :: es => ConcatSafe d e && ConcatSafeList d es
+end
+
+/-- the hypothesis about concatenations: the grammar reads every bare operand of `||` as
+    SQLAlchemy intends (PostgreSQL), or the element avoids the F1 cells -/
+def CSH (g : Grammar) (d : Dialect) (e : SaExpr) : Prop := concatFull g = true ∨ ConcatSafe d e = true
+
+def CSHL (g : Grammar) (d : Dialect) (es : List SaExpr) : Prop :=
+  concatFull g = true ∨ ConcatSafeList d es = true
+
+theorem tight_catFn_root (g : Grammar) (d : Dialect) (k : Nat) (c : SaExpr) (cop : Op)
+    (hc : Core c = true)
+    (hr : rootOp c = some cop) (hcf : catFn d cop = true) : tight g k (render d true c) = true := by
+  obtain ⟨ho, _⟩ := catFn_true hcf
+  cases c <;> simp [rootOp] at hr
+  · subst hr; rw [render_catFn_bin d true _ _ _ _ _ _ hcf]; rfl
+  · subst hr; rw [render_catFn_list d true _ _ _ _ _ hcf]; rfl
+  · subst hr; subst ho
+    simp [Core, coreUn] at hc
+
 /-- a child that `self_group` left bare under infix parent `op`: either it continues the chain
     of the same (naturally self-precedent) operator, or its rendering is tight on both sides -/
 theorem child_under_infix (g : Grammar) (C : Compat g) (d : Dialect) (op : Op) (hi : op ∈ coreInfix)
     (lbp rbp : Nat) (hb : g.infixBp (symOf op) = some (lbp, rbp))
-    (c : SaExpr) (hc : Core c = true) (hw : WG c = true) (hg : wouldGroup (some op) c = false) :
+    (c : SaExpr) (hc : Core c = true) (hw : WG c = true) (hg : wouldGroup (some op) c = false)
+    (hcc : op ≠ .concat_op ∨ concatFull g = true ∨ catOpnd c = true) :
     (naturalSelfPrecedent op = true ∧ rootIs (symOf op) (render d true c) = true) ∨
     (tight g (lbp + 1) (render d true c) = true ∧ tight g rbp (render d true c) = true) := by
   have hs : (precedence op).isSome = true := precs g C op (Or.inl hi)
@@ -771,17 +957,31 @@ theorem child_under_infix (g : Grammar) (C : Compat g) (d : Dialect) (op : Op) (
     by_cases hle : precOf cop ≤ precOf op
     · obtain ⟨heq, hn⟩ := same_of_not_precedent_le hs hnp hle
       subst heq
-      exact Or.inl ⟨hn, rootIs_render_of_rootOp d cop c hc hr hi⟩
+      by_cases hcf : catFn d cop = true
+      · exact Or.inr ⟨tight_catFn_root g d _ c cop hc hr hcf, tight_catFn_root g d _ c cop hc hr hcf⟩
+      · exact Or.inl ⟨hn, rootIs_render_of_rootOp d cop c hc hr hi (C.nsp_assoc cop hi hn).1
+          (by simpa using hcf)⟩
     · have hlt : precOf op < precOf cop := by omega
       have hab : above (precOf op) c = true :=
         above_of_WG (precs g C) c _ hc hw (rootAbove_of_rootOp (by
           intro cop' h'; rw [hr] at h'; cases h'; exact hlt))
+      have hII : ∀ o ∈ coreInfix, precOf op < precOf o → lbp + 1 ≤ infBase g o ∧ rbp ≤ infBase g o := by
+        intro o ho h
+        by_cases he : op = .concat_op
+        · subst he
+          rcases hcc with h' | h' | h'
+          · exact absurd rfl h'
+          · exact concatFull_spec g h' o ho lbp rbp hb h
+          · simp only [catOpnd, hr, decide_eq_true_eq] at h'
+            subst h'
+            omega
+        · exact C.inf_inf op hi he o ho lbp rbp hb h
       refine Or.inr ⟨?_, ?_⟩
       · exact tight_render g C d _ (precOf op)
-          (fun o ho h => (C.inf_inf op hi o ho lbp rbp hb h).1)
+          (fun o ho h => (hII o ho h).1)
           (fun u hu h => (C.inf_pre op hi u hu lbp rbp hb h).1) c hc hab
       · exact tight_render g C d _ (precOf op)
-          (fun o ho h => (C.inf_inf op hi o ho lbp rbp hb h).2)
+          (fun o ho h => (hII o ho h).2)
           (fun u hu h => (C.inf_pre op hi u hu lbp rbp hb h).2) c hc hab
 
 theorem child_under_prefix (g : Grammar) (C : Compat g) (d : Dialect) (op : Op) (hu : op ∈ corePrefix)
@@ -955,7 +1155,7 @@ theorem ok_castG {g : Grammar} {sl sr : Nat} (F : SepFacts g sl sr) (name : Opti
 theorem rootOp_mem {c : SaExpr} {cop : Op} (hc : Core c = true) (h : rootOp c = some cop) :
     cop ∈ coreInfix ∨ cop ∈ corePrefix := by
   cases c <;> simp [rootOp] at h <;> subst h <;> simp only [Core, Bool.and_eq_true] at hc
-  · exact Or.inl (coreBin_mem hc.1.1.1)
+  · exact Or.inl (coreBinD_mem hc.1.1.1)
   · exact Or.inl (coreList_mem hc.1.1.1)
   · exact Or.inr (coreUn_mem hc.1)
 
@@ -980,83 +1180,248 @@ theorem sepOpnd_render (g : Grammar) (C : Compat g) (hpt : prefixNoTern g) (d : 
   · intro s _
     exact allExp_render d _ (notMid_core g C _) (fun u hu => by simp [notMidOf, hpt u hu]) c hc
 
+/-- a child left bare under a parent that is not naturally self-precedent lies strictly above it -/
+theorem child_above (g : Grammar) (C : Compat g) (op : Op) (hi : op ∈ coreInfix)
+    (hnn : naturalSelfPrecedent op = false) (c : SaExpr) (hc : Core c = true) (hw : WG c = true)
+    (hg : wouldGroup (some op) c = false) : above (precOf op) c = true := by
+  have hs : (precedence op).isSome = true := precs g C op (Or.inl hi)
+  apply above_of_WG (precs g C) c _ hc hw
+  apply rootAbove_of_rootOp
+  intro cop hr
+  have hnp := not_precedent_of_not_wouldGroup hc hr hg
+  by_cases hle : precOf cop ≤ precOf op
+  · obtain ⟨heq, hn⟩ := same_of_not_precedent_le hs hnp hle
+    subst heq
+    rw [hnn] at hn; cases hn
+  · omega
+
+theorem ok_slash (g : Grammar) (lbp rbp : Nat) (hb : g.infixBp .slash = some (lbp, rbp))
+    (hq : g.ternBp .slash = none) (L X : G) (okL : ok g L = true) (okX : ok g X = true)
+    (tL : tight g (lbp + 1) L = true) (nmL : allExp (notMidOf g (some .slash)) L = true)
+    (tX : tight g rbp X = true) : ok g (G.inf .slash " / " L X) = true := by
+  have ha : G.assocSym .slash = false := rfl
+  simp [ok, hb, ha, okL, okX, hq, tL, nmL, tX]
+
+/-- `R + 0.0` where everything exposed in `R` binds tighter than `+` -/
+theorem ok_plus_zero (g : Grammar) (C : Compat g) (R : G) (okR : ok g R = true)
+    (tR : ∀ lbpP rbpP, g.infixBp .plus = some (lbpP, rbpP) → tight g rbpP R = true)
+    (nmR : allExp (notMidOf g (some .plus)) R = true) :
+    ok g (G.inf .plus " + " R zeroAtom) = true := by
+  have hi : Op.add ∈ coreInfix := by simp [coreInfix]
+  have ha : G.assocSym (symOf .add) = true := rfl
+  obtain ⟨_, lbpP, rbpP, hbP, hlt⟩ := C.nsp_assoc .add hi (C.assoc_nsp .add hi ha)
+  obtain ⟨_, _, hbP', hqP, _⟩ := C.inf_known .add hi
+  have hbP2 : g.infixBp .plus = some (lbpP, rbpP) := hbP
+  have hqP2 : g.ternBp .plus = none := hqP
+  have ha2 : G.assocSym .plus = true := rfl
+  simp [ok, hbP2, ha2, okR, hqP2, hlt, tR lbpP rbpP hbP2, nmR, zeroAtom, tight, allExp]
+
+theorem coreBinD_not_nsp_div (g : Grammar) (C : Compat g) {op : Op} (hdiv : coreDiv op = true) :
+    naturalSelfPrecedent op = false := by
+  cases hh : naturalSelfPrecedent op with
+  | false => rfl
+  | true =>
+    have := (C.nsp_assoc op (coreDiv_mem hdiv) hh).1
+    rw [symOf_div hdiv] at this
+    cases this
+
 theorem optG_some {e : SaExpr} {g x : G} (h : optG e g = some x) : x = g ∧ isAbsent e = false := by
   cases e <;> simp [optG] at h <;> exact ⟨h.symm, rfl⟩
+
+theorem wgAll_of_wgList (op : Op) : ∀ cs : List SaExpr, WGList op cs = true → WGAll cs = true
+  | [], _ => rfl
+  | c :: cs, h => by
+    simp only [WGList, Bool.and_eq_true] at h
+    simp [WGAll, h.1.2, wgAll_of_wgList op cs h.2]
+
+theorem csh_binary {g : Grammar} {d : Dialect} {op : Op} {l r : SaExpr} {n : Option Op}
+    {esc : Option String} {ty : Ty} (h : CSH g d (.binary op l r n esc ty)) :
+    CSH g d l ∧ CSH g d r ∧
+      (catFn d op = false → (op ≠ .concat_op ∨ concatFull g = true ∨ catOpnd l = true) ∧
+        (op ≠ .concat_op ∨ concatFull g = true ∨ catOpnd r = true)) := by
+  rcases h with h | h
+  · exact ⟨Or.inl h, Or.inl h, fun _ => ⟨Or.inr (Or.inl h), Or.inr (Or.inl h)⟩⟩
+  · simp only [ConcatSafe, Bool.and_eq_true, Bool.or_eq_true, bne_iff_ne, ne_eq] at h
+    refine ⟨Or.inr h.1.2, Or.inr h.2, ?_⟩
+    intro hcf
+    rcases h.1.1 with (h1 | h1) | h1
+    · exact ⟨Or.inl h1, Or.inl h1⟩
+    · rw [hcf] at h1; cases h1
+    · exact ⟨Or.inr (Or.inr h1.1), Or.inr (Or.inr h1.2)⟩
+
+theorem csh_clist {g : Grammar} {d : Dialect} {op : Op} {cs : List SaExpr} {gr bl : Bool}
+    {ty : Ty} (h : CSH g d (.clist op cs gr bl ty)) :
+    CSHL g d cs ∧
+      (catFn d op = false → ∀ c ∈ cs, op ≠ .concat_op ∨ concatFull g = true ∨ catOpnd c = true) := by
+  rcases h with h | h
+  · exact ⟨Or.inl h, fun _ c _ => Or.inr (Or.inl h)⟩
+  · simp only [ConcatSafe, Bool.and_eq_true, Bool.or_eq_true, bne_iff_ne, ne_eq, List.all_eq_true] at h
+    refine ⟨Or.inr h.2, ?_⟩
+    intro hcf c hc
+    rcases h.1 with (h1 | h1) | h1
+    · exact Or.inl h1
+    · rw [hcf] at h1; cases h1
+    · exact Or.inr (Or.inr (h1 c hc))
+
+theorem cshl_cons {g : Grammar} {d : Dialect} {c : SaExpr} {cs : List SaExpr} (h : CSHL g d (c :: cs)) :
+    CSH g d c ∧ CSHL g d cs := by
+  rcases h with h | h
+  · exact ⟨Or.inl h, Or.inl h⟩
+  · simp only [ConcatSafeList, Bool.and_eq_true] at h
+    exact ⟨Or.inr h.1, Or.inr h.2⟩
+
+theorem csh_sub {g : Grammar} {d : Dialect} {e e' : SaExpr}
+    (h : CSH g d e) (hs : ConcatSafe d e = true → ConcatSafe d e' = true) : CSH g d e' := by
+  rcases h with h | h
+  · exact Or.inl h
+  · exact Or.inr (hs h)
+
+theorem csh_subl {g : Grammar} {d : Dialect} {e : SaExpr} {es : List SaExpr}
+    (h : CSH g d e) (hs : ConcatSafe d e = true → ConcatSafeList d es = true) : CSHL g d es := by
+  rcases h with h | h
+  · exact Or.inl h
+  · exact Or.inr (hs h)
 
 mutual
 /-- **ok_render**: every well grouped element of the fragment renders to an `ok` token tree -/
 theorem ok_render (g : Grammar) (C : Compat g) (hpt : prefixNoTern g) (d : Dialect) :
-    ∀ e : SaExpr, Core e = true → WG e = true → ok g (render d true e) = true
-  | .col _ _, _, _ => rfl
-  | .bind _ _, _, _ => rfl
-  | .null, _, _ => rfl
-  | .true_, _, _ => rfl
-  | .false_, _, _ => rfl
-  | .grouping e, hc, hw => by
+    ∀ e : SaExpr, Core e = true → WG e = true → CSH g d e → ok g (render d true e) = true
+  | .col _ _, _, _, _ => rfl
+  | .bind _ _, _, _, _ => rfl
+  | .null, _, _, _ => rfl
+  | .true_, _, _, _ => rfl
+  | .false_, _, _, _ => rfl
+  | .grouping e, hc, hw, hs => by
     rw [render_grouping]
     simp only [ok]
     exact ok_render g C hpt d e (by simpa [Core] using hc) (by simpa [WG] using hw)
-  | .binary op l r n esc ty, hc, hw => by
-    have hc0 := hc
+      (csh_sub hs (by simp [ConcatSafe]))
+  | .binary op l r n esc ty, hc, hw, hs => by
     simp only [Core, Bool.and_eq_true] at hc
     obtain ⟨⟨⟨hop, _⟩, hcl⟩, hcr⟩ := hc
     simp only [WG, Bool.and_eq_true, Bool.not_eq_true'] at hw
     obtain ⟨⟨⟨hgl, hgr⟩, hwl⟩, hwr⟩ := hw
-    have hi := coreBin_mem hop
+    obtain ⟨hsl, hsr, hcat⟩ := csh_binary hs
+    have hi := coreBinD_mem hop
     obtain ⟨lbp, rbp, hb, hq, _⟩ := C.inf_known op hi
-    obtain ⟨txt, heq⟩ := render_coreBin d true op l r n esc ty hop
-    have okl := ok_render g C hpt d l hcl hwl
-    have okr := ok_render g C hpt d r hcr hwr
-    have chl := child_under_infix g C d op hi lbp rbp hb l hcl hwl hgl
-    have chr := child_under_infix g C d op hi lbp rbp hb r hcr hwr hgr
+    have okl := ok_render g C hpt d l hcl hwl hsl
+    have okr := ok_render g C hpt d r hcr hwr hsr
+    obtain ⟨sl, sr, hlt, hbp, hsi, hsp⟩ := C.sep
+    have F : SepFacts g sl sr := ⟨hlt, hbp⟩
+    by_cases hcf : catFn d op = true
+    · -- MySQL: `concat(l, r)`
+      rw [render_catFn_bin d true op l r n esc ty hcf]
+      show ok g (G.inf .comma ", " (render d true l) (render d true r)) = true
+      have := ok_chain_comma F [render d true l, render d true r] (by
+        intro x hx
+        simp only [List.mem_cons, List.mem_nil_iff, or_false] at hx
+        rcases hx with hx | hx
+        · subst hx; exact sepOpnd_render g C hpt d sr hsi hsp l hcl hwl okl
+        · subst hx; exact sepOpnd_render g C hpt d sr hsi hsp r hcr hwr okr)
+      simpa [chain, chainFrom] using this
+    have hcf' : catFn d op = false := by simpa using hcf
+    obtain ⟨hccl, hccr⟩ := hcat hcf'
+    have chl := child_under_infix g C d op hi lbp rbp hb l hcl hwl hgl hccl
+    have chr := child_under_infix g C d op hi lbp rbp hb r hcr hwr hgr hccr
     have nml := allExp_render d (notMidOf g (some (symOf op))) (notMid_core g C _)
       (fun u hu => by simp [notMidOf, hpt u hu]) l hcl
     have nmr := allExp_render d (notMidOf g (some (symOf op))) (notMid_core g C _)
       (fun u hu => by simp [notMidOf, hpt u hu]) r hcr
-    rw [heq]
-    by_cases ha : G.assocSym (symOf op) = true
-    · have hn := C.assoc_nsp op hi ha
-      obtain ⟨_, lbp', rbp', hb', hlt⟩ := C.nsp_assoc op hi hn
-      rw [hb] at hb'; cases hb'
-      simp only [ok, hb, ha, if_true, okl, okr, Bool.true_and, Bool.and_eq_true, decide_eq_true_eq,
-        Bool.or_eq_true, hq, Option.isNone_none]
-      refine ⟨⟨⟨hlt, trivial⟩, ?_⟩, ?_⟩
-      · rcases chl with h | h
-        · exact Or.inl h.2
-        · exact Or.inr ⟨h.2, nml⟩
-      · rcases chr with h | h
-        · exact Or.inl h.2
-        · exact Or.inr ⟨h.2, nmr⟩
-    · have ha' : G.assocSym (symOf op) = false := by simpa using ha
-      have hnn : naturalSelfPrecedent op = false := by
-        cases hh : naturalSelfPrecedent op with
-        | false => rfl
-        | true => exact absurd (C.nsp_assoc op hi hh).1 ha
-      simp only [ok, hb, ha', Bool.false_eq_true, if_false, okl, okr, Bool.true_and, hq,
-        Bool.and_eq_true, Bool.or_eq_true]
-      rcases chl with h | h
-      · rw [hnn] at h; cases h.1
-      · rcases chr with h' | h'
-        · rw [hnn] at h'; cases h'.1
-        · exact ⟨Or.inl ⟨h.1, nml⟩, h'.2⟩
-  | .unary op e ty, hc, hw => by
+    rcases coreBinD_cases hop with hop' | hdiv
+    · obtain ⟨txt, heq⟩ := render_coreBin d true op l r n esc ty hop' hcf'
+      rw [heq]
+      by_cases ha : G.assocSym (symOf op) = true
+      · have hn := C.assoc_nsp op hi ha
+        obtain ⟨_, lbp', rbp', hb', hlt⟩ := C.nsp_assoc op hi hn
+        rw [hb] at hb'; cases hb'
+        simp only [ok, hb, ha, if_true, okl, okr, Bool.true_and, Bool.and_eq_true, decide_eq_true_eq,
+          Bool.or_eq_true, hq, Option.isNone_none]
+        refine ⟨⟨⟨hlt, trivial⟩, ?_⟩, ?_⟩
+        · rcases chl with h | h
+          · exact Or.inl h.2
+          · exact Or.inr ⟨h.2, nml⟩
+        · rcases chr with h | h
+          · exact Or.inl h.2
+          · exact Or.inr ⟨h.2, nmr⟩
+      · have ha' : G.assocSym (symOf op) = false := by simpa using ha
+        have hnn : naturalSelfPrecedent op = false := by
+          cases hh : naturalSelfPrecedent op with
+          | false => rfl
+          | true => exact absurd (C.nsp_assoc op hi hh).1 ha
+        simp only [ok, hb, ha', Bool.false_eq_true, if_false, okl, okr, Bool.true_and, hq,
+          Bool.and_eq_true, Bool.or_eq_true]
+        rcases chl with h | h
+        · rw [hnn] at h; cases h.1
+        · rcases chr with h' | h'
+          · rw [hnn] at h'; cases h'.1
+          · exact ⟨Or.inl ⟨h.1, nml⟩, h'.2⟩
+    · -- the two divisions
+      have hnn := coreBinD_not_nsp_div g C hdiv
+      have hsl' := symOf_div hdiv
+      rw [hsl'] at hb hq nml
+      have tl : tight g (lbp + 1) (render d true l) = true := by
+        rcases chl with h | h
+        · rw [hnn] at h; cases h.1
+        · exact h.1
+      have tr : tight g rbp (render d true r) = true := by
+        rcases chr with h | h
+        · rw [hnn] at h; cases h.1
+        · exact h.2
+      have plain : ok g (G.inf .slash " / " (render d true l) (render d true r)) = true :=
+        ok_slash g lbp rbp hb hq _ _ okl okr tl nml tr
+      have sR := sepOpnd_render g C hpt d sr hsi hsp r hcr hwr okr
+      cases op <;> simp [coreDiv] at hdiv
+      · -- truediv
+        show ok g (truedivG d (render d true l) (render d true r)) = true
+        unfold truedivG
+        split
+        · apply ok_slash g lbp rbp hb hq _ _ okl _ tl nml rfl
+          simp only [ok]
+          apply ok_plus_zero g C _ okr
+          · intro lbpP rbpP hbP
+            have hab := child_above g C .truediv hi hnn r hcr hwr hgr
+            have hia : Op.add ∈ coreInfix := by simp [coreInfix]
+            have hne : Op.add ≠ Op.concat_op := by decide
+            exact tight_render g C d rbpP (precOf .truediv)
+              (fun o ho h => (C.inf_inf .add hia hne o ho lbpP rbpP hbP (by have := C.add_div; omega)).2)
+              (fun u hu h => (C.inf_pre .add hia u hu lbpP rbpP hbP (by have := C.add_div; omega)).2)
+              r hcr hab
+          · exact allExp_render d _ (notMid_core g C _) (fun u hu => by simp [notMidOf, hpt u hu]) r hcr
+        · split
+          · apply ok_slash g lbp rbp hb hq _ _ okl _ tl nml rfl
+            exact ok_castG F (some _) false _ sR
+          · exact plain
+      · -- floordiv
+        show ok g (floordivG d (SaExpr.tyOf l) (SaExpr.tyOf r) (render d true l) (render d true r)) = true
+        unfold floordivG
+        split
+        · exact plain
+        · simpa [ok] using plain
+  | .unary op e ty, hc, hw, hs => by
     simp only [Core, Bool.and_eq_true] at hc
     simp only [WG, Bool.and_eq_true, Bool.not_eq_true'] at hw
     have hu := coreUn_mem hc.1
     obtain ⟨bp, hb, _⟩ := C.pre_known op hu
     rw [render_unary]
     simp only [ok, hb, Bool.and_eq_true]
-    exact ⟨ok_render g C hpt d e hc.2 hw.2, child_under_prefix g C d op hu bp hb e hc.2 hw.2 hw.1⟩
-  | .clist op cs gr bl ty, hc, hw => by
+    exact ⟨ok_render g C hpt d e hc.2 hw.2 (csh_sub hs (by simp [ConcatSafe])),
+      child_under_prefix g C d op hu bp hb e hc.2 hw.2 hw.1⟩
+  | .clist op cs gr bl ty, hc, hw, hs => by
     simp only [Core, Bool.and_eq_true, decide_eq_true_eq] at hc
     obtain ⟨⟨⟨hop, _⟩, hlen⟩, hcs⟩ := hc
     simp only [WG] at hw
+    obtain ⟨hsl, hcat⟩ := csh_clist hs
     have hi := coreList_mem hop
     obtain ⟨lbp, rbp, hb, hq, _⟩ := C.inf_known op hi
-    have hn : naturalSelfPrecedent op = true ∨ naturalSelfPrecedent op = false := by
-      cases naturalSelfPrecedent op <;> simp
-    rw [render_clist d true op cs gr bl ty (coreList_ne_concat hop)]
-    have hall := ok_renderList g C hpt d op hi lbp rbp hb cs hcs hw
+    by_cases hcf : catFn d op = true
+    · obtain ⟨sl, sr, hlt, hbp, hsi, hsp⟩ := C.sep
+      have F : SepFacts g sl sr := ⟨hlt, hbp⟩
+      rw [render_catFn_list d true op cs gr bl ty hcf]
+      simp only [ok]
+      exact ok_chain_comma F _ (sepOpnd_renderAll g C hpt d sr hsi hsp cs hcs (wgAll_of_wgList op cs hw) hsl)
+    have hcf' : catFn d op = false := by simpa using hcf
+    rw [render_clist d true op cs gr bl ty hcf']
+    have hall := ok_renderList g C hpt d op hi lbp rbp hb cs hcs hw hsl (hcat hcf')
     -- the chain operators of the fragment's lists are associative symbols of the backend
     have ha : G.assocSym (symOf op) = true := by
       cases op <;> simp [coreList] at hop <;> rfl
@@ -1070,30 +1435,35 @@ theorem ok_render (g : Grammar) (C : Compat g) (hpt : prefixNoTern g) (d : Diale
       rw [hcs'] at hall
       obtain ⟨hox, hcx⟩ := hall x (by simp)
       exact ok_chainFrom g _ _ lbp rbp hb ha hlt hq xs x hox hcx (fun y hy => hall y (by simp [hy]))
-  | .asbool _ _ _, hc, _ => by simp [Core] at hc
-  | .subq _ _, _, _ => rfl
-  | .func n args ty, hc, hw => by
+  | .asbool _ _ _, hc, _, _ => by simp [Core] at hc
+  | .subq _ _, _, _, _ => rfl
+  | .func n args ty, hc, hw, hs => by
     obtain ⟨sl, sr, hlt, hbp, hi, hp⟩ := C.sep
     have F : SepFacts g sl sr := ⟨hlt, hbp⟩
     have hca : CoreList args = true := by simp only [Core, Bool.and_eq_true] at hc; exact hc.2
     have hwa : WGAll args = true := by simpa [WG] using hw
     rw [render_func]
     simp only [ok]
-    exact ok_chain_comma F _ (sepOpnd_renderAll g C hpt d sr hi hp args hca hwa)
-  | .cast e ty, hc, hw => by
+    exact ok_chain_comma F _ (sepOpnd_renderAll g C hpt d sr hi hp args hca hwa
+      (csh_subl hs (by simp [ConcatSafe])))
+  | .cast e ty, hc, hw, hs => by
     obtain ⟨sl, sr, hlt, hbp, hi, hp⟩ := C.sep
     have F : SepFacts g sl sr := ⟨hlt, hbp⟩
     have hce : Core e = true := by simpa [Core] using hc
     have hwe : WG e = true := by simpa [WG] using hw
     rw [render_cast]
-    exact ok_castG F _ _ _ (sepOpnd_render g C hpt d sr hi hp e hce hwe (ok_render g C hpt d e hce hwe))
-  | .case_ v ws e ty, hc, hw => by
+    exact ok_castG F _ _ _ (sepOpnd_render g C hpt d sr hi hp e hce hwe
+      (ok_render g C hpt d e hce hwe (csh_sub hs (by simp [ConcatSafe]))))
+  | .case_ v ws e ty, hc, hw, hs => by
     obtain ⟨sl, sr, hlt, hbp, hi, hp⟩ := C.sep
     have F : SepFacts g sl sr := ⟨hlt, hbp⟩
     simp only [Core, Bool.and_eq_true, Bool.or_eq_true] at hc
     obtain ⟨⟨⟨⟨hcv, hcw⟩, _⟩, _⟩, hce⟩ := hc
     simp only [WG, Bool.and_eq_true] at hw
     obtain ⟨⟨hwv, hww⟩, hwe⟩ := hw
+    have hsv : CSH g d v := csh_sub hs (by simp only [ConcatSafe, Bool.and_eq_true]; exact fun h => h.1.1)
+    have hsw : CSHL g d ws := csh_subl hs (by simp only [ConcatSafe, Bool.and_eq_true]; exact fun h => h.1.2)
+    have hse : CSH g d e := csh_sub hs (by simp only [ConcatSafe, Bool.and_eq_true]; exact fun h => h.2)
     rw [render_case]
     apply ok_caseG F
     · intro x hx
@@ -1103,8 +1473,8 @@ theorem ok_render (g : Grammar) (C : Compat g) (hpt : prefixNoTern g) (d : Diale
         rcases hcv with h | h
         · rw [hna] at h; cases h
         · exact h
-      exact sepOpnd_render g C hpt d sr hi hp v hcv' hwv (ok_render g C hpt d v hcv' hwv)
-    · exact sepOpnd_renderAll g C hpt d sr hi hp ws hcw hww
+      exact sepOpnd_render g C hpt d sr hi hp v hcv' hwv (ok_render g C hpt d v hcv' hwv hsv)
+    · exact sepOpnd_renderAll g C hpt d sr hi hp ws hcw hww hsw
     · intro x hx
       obtain ⟨hxe, hna⟩ := optG_some hx
       subst hxe
@@ -1112,52 +1482,56 @@ theorem ok_render (g : Grammar) (C : Compat g) (hpt : prefixNoTern g) (d : Diale
         rcases hce with h | h
         · rw [hna] at h; cases h
         · exact h
-      exact sepOpnd_render g C hpt d sr hi hp e hce' hwe (ok_render g C hpt d e hce' hwe)
-  | .inlist _ _ _, hc, _ => by simp [Core] at hc
-  | .inrows _ _ _, hc, _ => by simp [Core] at hc
-  | .tuple_ _, hc, _ => by simp [Core] at hc
-  | .litcol _ _, hc, _ => by simp [Core] at hc
-  | .ilikeOperand _, hc, _ => by simp [Core] at hc
-  | .absent, hc, _ => by simp [Core] at hc
+      exact sepOpnd_render g C hpt d sr hi hp e hce' hwe (ok_render g C hpt d e hce' hwe hse)
+  | .inlist _ _ _, hc, _, _ => by simp [Core] at hc
+  | .inrows _ _ _, hc, _, _ => by simp [Core] at hc
+  | .tuple_ _, hc, _, _ => by simp [Core] at hc
+  | .litcol _ _, hc, _, _ => by simp [Core] at hc
+  | .ilikeOperand _, hc, _, _ => by simp [Core] at hc
+  | .absent, hc, _, _ => by simp [Core] at hc
 
 theorem sepOpnd_renderAll (g : Grammar) (C : Compat g) (hpt : prefixNoTern g) (d : Dialect) (sr : Nat)
     (hi : ∀ o ∈ coreInfix, sr ≤ infBase g o) (hp : ∀ u ∈ corePrefix, sr ≤ preBase g u) :
-    ∀ cs : List SaExpr, CoreList cs = true → WGAll cs = true →
+    ∀ cs : List SaExpr, CoreList cs = true → WGAll cs = true → CSHL g d cs →
       ∀ x ∈ renderList d true cs, SepOpnd g sr x
-  | [], _, _ => by intro x hx; simp [renderList_nil] at hx
-  | c :: cs, hc, hw => by
+  | [], _, _, _ => by intro x hx; simp [renderList_nil] at hx
+  | c :: cs, hc, hw, hs => by
     simp only [CoreList, Bool.and_eq_true] at hc
     simp only [WGAll, Bool.and_eq_true] at hw
+    obtain ⟨hs1, hs2⟩ := cshl_cons hs
     intro x hx
     rw [renderList_cons] at hx
     simp only [List.mem_cons] at hx
     rcases hx with hx | hx
     · subst hx
-      exact sepOpnd_render g C hpt d sr hi hp c hc.1 hw.1 (ok_render g C hpt d c hc.1 hw.1)
-    · exact sepOpnd_renderAll g C hpt d sr hi hp cs hc.2 hw.2 x hx
+      exact sepOpnd_render g C hpt d sr hi hp c hc.1 hw.1 (ok_render g C hpt d c hc.1 hw.1 hs1)
+    · exact sepOpnd_renderAll g C hpt d sr hi hp cs hc.2 hw.2 hs2 x hx
 
 theorem ok_renderList (g : Grammar) (C : Compat g) (hpt : prefixNoTern g) (d : Dialect)
     (op : Op) (hi : op ∈ coreInfix) (lbp rbp : Nat) (hb : g.infixBp (symOf op) = some (lbp, rbp)) :
-    ∀ cs : List SaExpr, CoreList cs = true → WGList op cs = true →
+    ∀ cs : List SaExpr, CoreList cs = true → WGList op cs = true → CSHL g d cs →
+      (∀ c ∈ cs, op ≠ .concat_op ∨ concatFull g = true ∨ catOpnd c = true) →
       ∀ x ∈ renderList d true cs, ok g x = true ∧
         (rootIs (symOf op) x = true ∨
           (tight g rbp x = true ∧ allExp (notMidOf g (some (symOf op))) x = true))
-  | [], _, _ => by intro x hx; simp [renderList_nil] at hx
-  | c :: cs, hc, hw => by
+  | [], _, _, _, _ => by intro x hx; simp [renderList_nil] at hx
+  | c :: cs, hc, hw, hs, hcc => by
     simp only [CoreList, Bool.and_eq_true] at hc
     simp only [WGList, Bool.and_eq_true, Bool.not_eq_true'] at hw
+    obtain ⟨hs1, hs2⟩ := cshl_cons hs
     intro x hx
     rw [renderList_cons] at hx
     simp only [List.mem_cons] at hx
     rcases hx with hx | hx
     · subst hx
-      refine ⟨ok_render g C hpt d c hc.1 hw.1.2, ?_⟩
+      refine ⟨ok_render g C hpt d c hc.1 hw.1.2 hs1, ?_⟩
       have nm := allExp_render d (notMidOf g (some (symOf op))) (notMid_core g C _)
         (fun u hu => by simp [notMidOf, hpt u hu]) c hc.1
-      rcases child_under_infix g C d op hi lbp rbp hb c hc.1 hw.1.2 hw.1.1 with h | h
+      rcases child_under_infix g C d op hi lbp rbp hb c hc.1 hw.1.2 hw.1.1 (hcc c (by simp)) with h | h
       · exact Or.inl h.2
       · exact Or.inr ⟨h.2, nm⟩
-    · exact ok_renderList g C hpt d op hi lbp rbp hb cs hc.2 hw.2 x hx
+    · exact ok_renderList g C hpt d op hi lbp rbp hb cs hc.2 hw.2 hs2
+        (fun y hy => hcc y (by simp [hy])) x hx
 end
 
 end SaVerif.Expr
@@ -1232,17 +1606,33 @@ theorem selfGroup_core (a : Op) (x : SaExpr) (hc : Core x = true) (hw : WG x = t
 theorem coreBin_not_boolCtx {op : Op} (h : coreBin op = true) : boolCtx op = false := by
   cases op <;> simp [coreBin] at h <;> rfl
 
+theorem coreBinD_not_boolCtx {op : Op} (h : coreBinD op = true) : boolCtx op = false := by
+  rcases coreBinD_cases h with h | h
+  · exact coreBin_not_boolCtx h
+  · cases op <;> simp [coreDiv] at h <;> rfl
+
+theorem coreBinD_of_bin {op : Op} (h : coreBin op = true) : coreBinD op = true := by
+  simp [coreBinD, h]
+
+theorem coreBinD_of_div {op : Op} (h : coreDiv op = true) : coreBinD op = true := by
+  simp [coreBinD, h]
+
 theorem coreUn_not_boolCtx {op : Op} (h : coreUn op = true) : boolCtx op = false := by
   cases op <;> simp [coreUn] at h <;> rfl
 
 /-- **mkBinary_WG**: `BinaryExpression(left, right, op)` over well grouped core operands is a
     well grouped core element -/
-theorem mkBinary_WG (l r : SaExpr) (op : Op) (ty : Ty) (n : Option Op) (hop : coreBin op = true)
+theorem mkBinary_WG' (l r : SaExpr) (op : Op) (ty : Ty) (n : Option Op) (hop : coreBinD op = true)
     (hcl : Core l = true) (hwl : WG l = true) (hcr : Core r = true) (hwr : WG r = true) :
     Core (mkBinary l r op ty n none) = true ∧ WG (mkBinary l r op ty n none) = true := by
-  obtain ⟨c1, w1, g1⟩ := selfGroup_core op l hcl hwl (Or.inl (coreBin_not_boolCtx hop))
-  obtain ⟨c2, w2, g2⟩ := selfGroup_core op r hcr hwr (Or.inl (coreBin_not_boolCtx hop))
+  obtain ⟨c1, w1, g1⟩ := selfGroup_core op l hcl hwl (Or.inl (coreBinD_not_boolCtx hop))
+  obtain ⟨c2, w2, g2⟩ := selfGroup_core op r hcr hwr (Or.inl (coreBinD_not_boolCtx hop))
   simp [mkBinary, Core, WG, hop, c1, c2, w1, w2, g1, g2]
+
+theorem mkBinary_WG (l r : SaExpr) (op : Op) (ty : Ty) (n : Option Op) (hop : coreBin op = true)
+    (hcl : Core l = true) (hwl : WG l = true) (hcr : Core r = true) (hwr : WG r = true) :
+    Core (mkBinary l r op ty n none) = true ∧ WG (mkBinary l r op ty n none) = true :=
+  mkBinary_WG' l r op ty n (coreBinD_of_bin hop) hcl hwl hcr hwr
 
 /-- **negImpl_WG** / `UnaryExpression(x, operator=op)` -/
 theorem unary_WG (x : SaExpr) (op : Op) (ty : Ty) (hop : coreUn op = true)
@@ -1278,6 +1668,11 @@ open SaVerif.Expr.Gen SaVerif.Pratt
 
 /-! ### the compile-time rewriting is the identity on the fragment -/
 
+theorem strOpKind_coreD {op : Op} (h : coreBinD op = true) : strOpKind op = none := by
+  rcases coreBinD_cases h with h | h
+  · cases op <;> simp [coreBin] at h <;> rfl
+  · cases op <;> simp [coreDiv] at h <;> rfl
+
 theorem strOpKind_core {op : Op} (h : coreBin op = true) : strOpKind op = none := by
   cases op <;> simp [coreBin] at h <;> rfl
 
@@ -1293,7 +1688,7 @@ theorem lower_core : ∀ e : SaExpr, Core e = true → lower e = e
     rw [lower_core e (by simpa [Core] using hc)]
   | .binary op l r n esc ty, hc => by
     simp only [Core, Bool.and_eq_true] at hc
-    simp only [lower, strOpKind_core hc.1.1.1, lower_core l hc.1.2, lower_core r hc.2]
+    simp only [lower, strOpKind_coreD hc.1.1.1, lower_core l hc.1.2, lower_core r hc.2]
   | .unary op e ty, hc => by
     simp only [Core, Bool.and_eq_true] at hc
     simp only [lower, lower_core e hc.2]
